@@ -105,3 +105,27 @@ def _trim_zeros_seq(filt, trim='fb', axis=None):
 
 
 _PI.trim_zeros = _trim_zeros_seq
+
+
+def sym_min(*args, **kw):
+    """builtin min on symbolic reals as an If-term (no fork); falls back to the
+    builtin for anything else (keys, concrete values)."""
+    xs = list(args[0]) if len(args) == 1 else list(args)
+    if kw or not any(isinstance(x, SR) for x in xs):
+        return min(*args, **kw)
+    r = lift(xs[0]).e
+    for x in xs[1:]:
+        x = lift(x).e
+        r = z3.If(x < r, x, r)
+    return SR(r)
+
+
+def sym_max(*args, **kw):
+    xs = list(args[0]) if len(args) == 1 else list(args)
+    if kw or not any(isinstance(x, SR) for x in xs):
+        return max(*args, **kw)
+    r = lift(xs[0]).e
+    for x in xs[1:]:
+        x = lift(x).e
+        r = z3.If(x > r, x, r)
+    return SR(r)
